@@ -78,7 +78,8 @@ def run(ctx):
         "samples": codecfam.first_records(shards, 1, lambda r: r["cls"] == "inflate"),
         "evaluations": total, "distinct_nontrivial": int(ndistinct),
         "rule": "per struct type and value: proper prefixes (all when <= 48 bytes, else field boundaries +-1 and 24 random cuts), "
-                "each embedded length replaced by n+1, remaining+1, 2^31-1, -1, -2^31, n+1000, n-1, each top-level field replaced "
+                "each embedded length replaced by n+1, remaining+1, 2^31-1, -1, -2^31, n+1000, n-1 (4-byte string lengths also 2^31, 2^32-1), each 1-byte "
+                "string length also re-announced as a 4-byte length (n, remaining+1, 2^31, 2^31+n, 2^32-1, 2^32-2), each top-level field replaced "
                 "by a well-formed field of each of the other 12 wire types; distinct = distinct (struct, bytes)",
         "corpus_classes": cnt, "worker_deaths": int(deaths),
         "observations": {"mutants_rejected_although_the_reference_accepts_them": len(rejected_valid), "examples": rejected_valid[:3]},
